@@ -143,7 +143,7 @@ type c23H struct {
 	genHash   crypto.Digest
 	cases     int
 	apps      []uint64          // real application ids by ordinal (ordinal n = apps[n-1])
-	installed map[uint64]string // by ordinal: the script whose compilation is the approval program
+	installed map[uint64]string // by ordinal: the compiled approval program (as a string)
 	fresh     map[uint64]uint64 // ordinals of the applications the current group creates -> their future real ids
 	ledgerAge int
 	nonce     uint64
@@ -480,11 +480,9 @@ func (h *c23H) parseTxn(s string, prep *[][2]string) (tx transactions.Transactio
 		tx.ApplicationID = basics.AppIndex(h.real(app))
 		tx.OnCompletion = transactions.UpdateApplicationOC
 		tx.GlobalStateSchema = basics.StateSchema{NumUint: vh.U(f[3]), NumByteSlice: vh.U(f[4])}
-		script, ok := h.installed[app]
-		if !ok {
-			script = "-"
-		}
-		if tx.ApprovalProgram, err = h.program(script); err != nil {
+		if prog, ok := h.installed[app]; ok {
+			tx.ApprovalProgram = []byte(prog) // the update keeps the installed program
+		} else if tx.ApprovalProgram, err = h.program("-"); err != nil {
 			return
 		}
 		tx.ClearStateProgram = h.clearProgram()
@@ -607,53 +605,76 @@ func (h *c23H) group(op string) string {
 			prep = append(prep, [2]string{tf[2], tf[6]})
 		}
 	}
-	// 2. which scripts have to be installed (one UpdateApplication each, separate single-transaction groups)
-	var needed [][2]string
-	pending := map[uint64]string{}
-	for _, p := range prep {
-		app := vh.U(p[0])
-		cur, ok := h.installed[app]
-		if q, ok2 := pending[app]; ok2 {
-			cur = q
-		}
-		if !ok || cur == p[1] {
-			continue // not an application of the case (the call will fail by itself), or already installed
-		}
-		if _, _, err := h.ev.VerifC23AppParams(basics.AppIndex(h.real(app))); err != nil {
-			continue // deleted
-		}
-		pending[app] = p[1]
-		needed = append(needed, p)
+	// 2. which scripts have to be installed (one UpdateApplication each, separate single-transaction groups).  `installed`
+	//    remembers the compiled program, not the script text: a script that names an application created in this group
+	//    compiles to different bytes when the future id differs.  The future ids depend on the number of preparatory
+	//    transactions, which depends on the compiled programs: iterate to the fixed point (it moves at most a few times).
+	type prepItem struct {
+		app  uint64
+		prog []byte
 	}
-	// 3. the applications this group creates: ordinal -> future id (txn counter after the preparatory groups + position + 1)
-	ctr := h.ev.VerifC23Counter() + uint64(len(needed))
-	h.fresh = map[uint64]uint64{}
+	var needed []prepItem
 	var freshOrd []uint64
-	for i, s := range specs {
-		if strings.HasPrefix(s, "create,") {
-			ord := uint64(len(h.apps) + len(freshOrd) + 1)
-			h.fresh[ord] = ctr + uint64(i) + 1
-			freshOrd = append(freshOrd, ord)
+	base := h.ev.VerifC23Counter()
+	nprep := 0
+	for iter := 0; ; iter++ {
+		ctr := base + uint64(nprep)
+		h.fresh = map[uint64]uint64{}
+		freshOrd = nil
+		for i, s := range specs {
+			if strings.HasPrefix(s, "create,") {
+				ord := uint64(len(h.apps) + len(freshOrd) + 1)
+				h.fresh[ord] = ctr + uint64(i) + 1
+				freshOrd = append(freshOrd, ord)
+			}
 		}
+		needed = nil
+		pending := map[uint64]string{}
+		for _, p := range prep {
+			app := vh.U(p[0])
+			cur, ok := h.installed[app]
+			if q, ok2 := pending[app]; ok2 {
+				cur = q
+			}
+			if !ok {
+				continue // not an application of the case (the call will fail by itself)
+			}
+			if _, _, err := h.ev.VerifC23AppParams(basics.AppIndex(h.real(app))); err != nil {
+				continue // deleted
+			}
+			prog, err := h.program(p[1])
+			if err != nil {
+				h.fresh = nil
+				return "bad-op " + err.Error()
+			}
+			if cur == string(prog) {
+				continue // already installed
+			}
+			pending[app] = string(prog)
+			needed = append(needed, prepItem{app, prog})
+		}
+		if len(needed) == nprep {
+			break
+		}
+		if iter > 6 {
+			h.fresh = nil
+			return "prep-failed no fixed point"
+		}
+		nprep = len(needed)
 	}
+	ctr := base + uint64(nprep)
 	for _, p := range needed {
-		app := vh.U(p[0])
 		var tx transactions.Transaction
 		tx.Header = h.hdr(1)
 		tx.Type = protocol.ApplicationCallTx
-		tx.ApplicationID = basics.AppIndex(h.real(app))
+		tx.ApplicationID = basics.AppIndex(h.real(p.app))
 		tx.OnCompletion = transactions.UpdateApplicationOC
-		prog, err := h.program(p[1])
-		if err != nil {
-			h.fresh = nil
-			return "bad-op " + err.Error()
-		}
-		tx.ApprovalProgram, tx.ClearStateProgram = prog, h.clearProgram()
+		tx.ApprovalProgram, tx.ClearStateProgram = p.prog, h.clearProgram()
 		if err, _ := h.runGroup([]transactions.Transaction{tx}); err != nil {
 			h.fresh = nil
 			return "prep-failed " + c23Classify(err)
 		}
-		h.installed[app] = p[1]
+		h.installed[p.app] = string(p.prog)
 	}
 	if got := h.ev.VerifC23Counter(); got != ctr {
 		h.fresh = nil
@@ -684,7 +705,9 @@ func (h *c23H) group(op string) string {
 				ord := freshOrd[k]
 				k++
 				h.apps = append(h.apps, h.fresh[ord])
-				h.installed[ord] = strings.Split(s, ",")[8]
+				if prog, perr := h.program(strings.Split(s, ",")[8]); perr == nil {
+					h.installed[ord] = string(prog)
+				}
 			}
 		}
 		fmt.Fprintf(&sb, " L=%s D=%d/%d", strings.Join(h.tr.logs, ";"), h.tr.dirty, h.tr.budget)
@@ -1554,7 +1577,7 @@ func TestVerifC23(t *testing.T) {
 		return
 	}
 	g := &c23Gen{r: vh.NewRng(vh.Seed()*1000003 + 23), h: h}
-	cases := vh.Budget(250, 20000)
+	cases := vh.Budget(200, 12000)
 	if os.Getenv("VERIF_C23_CASES") != "" {
 		cases = int(vh.U(os.Getenv("VERIF_C23_CASES")))
 	}
